@@ -47,9 +47,11 @@ impl Parser<'_, '_> {
             };
             self.take_token_raw().await?;
 
-            while self.newline_and_here_doc_contents().await? {}
-
             let maybe_pipeline = loop {
+                // Newlines are skipped inside the loop because an alias
+                // substitution may produce more newlines before the pipeline.
+                while self.newline_and_here_doc_contents().await? {}
+
                 if let Rec::Parsed(maybe_pipeline) = self.pipeline().await? {
                     break maybe_pipeline;
                 }
@@ -77,6 +79,30 @@ mod tests {
     use super::*;
     use crate::source::Source;
     use futures_util::FutureExt as _;
+
+    #[test]
+    fn parser_alias_substitution_to_newline_after_and_and() {
+        use crate::alias::{AliasSet, HashEntry};
+        use crate::source::Location;
+
+        let mut lexer = Lexer::with_code("foo && X\n bar");
+        #[allow(clippy::mutable_key_type, reason = "AliasSet is defined as such")]
+        let mut aliases = AliasSet::new();
+        aliases.insert(HashEntry::new(
+            "X".to_string(),
+            "\n".to_string(),
+            false,
+            Location::dummy(""),
+        ));
+        let mut parser = Parser::config().aliases(&aliases).input(&mut lexer);
+
+        let result = parser.and_or_list().now_or_never().unwrap();
+        let list = result.unwrap().unwrap().unwrap();
+        assert_eq!(list.first.to_string(), "foo");
+        assert_eq!(list.rest.len(), 1);
+        assert_eq!(list.rest[0].0, AndOr::AndThen);
+        assert_eq!(list.rest[0].1.to_string(), "bar");
+    }
 
     #[test]
     fn parser_and_or_list_eof() {
